@@ -349,6 +349,12 @@ def run_impl(case):
     perm = case["perm"]
     out["perm"] = lp.predict(y=y[perm], x=x[perm], x_new=q).tolist()
     out["single"] = [float(lp.predict(y=y, x=x, x_new=q[j : j + 1])[0]) for j in range(len(q))]
+    # history on one object: other kernel / bandwidth / degree first, then the case's options through the setters
+    other = KERNELS[(KERNELS.index(case["kernel"]) + 1) % 4]
+    lph = LocalPolynomial(kernel_name=other, bandwidth=2.5 * h, degree=(case["degree"] + 1) % 4)
+    lph.predict(y=y2, x=x, x_new=q[:1])
+    lph.kernel_name, lph.bandwidth, lph.degree = case["kernel"], h, case["degree"]
+    out["hist"] = lph.predict(y=y, x=x, x_new=q).tolist()
     # locality: change the responses that lie outside every query window (compact kernels)
     if case["kernel"] != "gaussian":
         d = np.abs(x[:, None] - q[None, :]) if case["dim"] == 1 else np.sqrt(((x[:, None, :] - q[None, :, :]) ** 2).sum(axis=2))
@@ -534,6 +540,9 @@ def oracle(case, impl):
         # the order of the sampling points is irrelevant
         if not near(impl["perm"][j], f, sc):
             bad("order_of_data", f"estimate {f!r} vs {impl['perm'][j]!r} after permuting the data at {where}", dom)
+        # options set through the setters on a used object behave like a fresh object
+        if not near(impl["hist"][j], f, sc, 1e-10):
+            bad("history_independent", f"estimate {f!r} on a fresh object vs {impl['hist'][j]!r} on an object that was used with other options before at {where}", dom)
         # pointwise: the other query points do not matter
         if not near(impl["single"][j], f, sc, 1e-10):
             bad("pointwise", f"estimate {f!r} in a batch vs {impl['single'][j]!r} alone at {where}", dom)
